@@ -85,7 +85,10 @@ def main():
         # 3. the property's check against the patched tree
         shutil.rmtree(os.path.join(patched, "target"), ignore_errors=True)
         t0 = time.time()
-        rc, out = sh(["./check", prop, "--tier", tier], cwd=VERIF, env={"VERIF_REPO": patched}, timeout=7200)
+        evd = base + ".evidence"
+        os.makedirs(evd, exist_ok=True)
+        rc, out = sh(["./check", prop, "--tier", tier], cwd=VERIF, env={"VERIF_REPO": patched, "VERIF_EVIDENCE_DIR": evd}, timeout=7200)
+        shutil.rmtree(evd, ignore_errors=True)
         lines = [l for l in out.splitlines() if l.startswith(("VIOLATION", "UNDECIDED", "KNOWN-FINDING"))]
         meta["steps"]["check"] = {"cmd": "VERIF_REPO=<patched> ./check %s --tier %s" % (prop, tier), "exit": rc, "lines": lines[:12],
                                   "seconds": round(time.time() - t0, 1), "tail": out[-700:]}
